@@ -458,7 +458,7 @@ def _tagmarkup_recurse(tm, attr):
         ral = []
         for element in tm:
             tl, al = _tagmarkup_recurse(element, attr)
-            if ral:
+            if ral and al:
                 # merge attributes when possible
                 last_attr, last_run = ral[-1]
                 top_attr, top_run = al[0]
@@ -480,7 +480,9 @@ def _tagmarkup_recurse(tm, attr):
     if not isinstance(tm, (str, bytes)):
         raise TagMarkupException(f"Invalid markup element: {tm!r}")
 
-    # text
+    # text (an empty string contributes no attribute run: zero-length runs break run-length processing later)
+    if not tm:
+        return [tm], []
     return [tm], [(attr, len(tm))]
 
 
